@@ -49,6 +49,22 @@ pub fn aligned_program(k: &K, layers: u8, npieces: usize, piece: Sz, seed: u64) 
     gen::with_size_at(p, k, 0, "piece_end", Sz::new(0, 1, 0))
 }
 
+/// Adversarial content: the data of a content block starts exactly on a chunk edge and is made
+/// of 64-byte units that each parse as a valid FileContent block of the same file, so whatever
+/// chunk-aligned position a reader resumes at after a failed chunk, it finds valid blocks
+pub fn adversarial_program(k: &K, layers: u8, nchunks: i64, seed: u64) -> Option<Program> {
+    let p = Program {
+        layers,
+        level: 1,
+        nrecip: 1,
+        files: vec![FileSpec { name: NameKind::Plain(0), data: DataKind::Random }, FileSpec { name: NameKind::Plain(1), data: DataKind::Tiles(1) }],
+        ops: vec![Op::Start(0), Op::Start(1), Op::Append(0, Sz::lit(1)), Op::Append(1, Sz::new(0, nchunks, 0)), Op::End(1), Op::End(0), Op::Finalize],
+        seed,
+    };
+    // the content header of the tiled piece ends on the first chunk edge
+    gen::with_size_at(p, k, 0, "content_hdr", Sz::new(0, 1, -17))
+}
+
 fn faults_for_all_chunks(nchunks: usize, offs: &[i64]) -> Vec<Fault> {
     let mut v = Vec::new();
     for c in 0..nchunks as i64 {
@@ -90,6 +106,12 @@ pub fn cases(ctx: &Ctx) -> Vec<Case> {
                 v.push(Case { prog: p, faults: faults_for_all_chunks(n, &[0, 1, 16, 17, 18, -1]) });
             }
         }
+        for nch in 2..=8 {
+            if let Some(p) = adversarial_program(&k, 1, nch, ctx.seed ^ 0xAD ^ nch as u64) {
+                let n = est_chunks(&p);
+                v.push(Case { prog: p, faults: faults_for_all_chunks(n, &[0, 1, 17, -1]) });
+            }
+        }
         // interleaved files and compression
         let n = if ctx.quick() { 60 } else { 600 };
         let mut sizes = gen::small_sizes();
@@ -106,6 +128,12 @@ pub fn cases(ctx: &Ctx) -> Vec<Case> {
             if let Some(p) = aligned_program(&k, 1, np, Sz::new(0, 1, -17), ctx.seed ^ np as u64) {
                 let n = est_chunks(&p);
                 v.push(Case { prog: p, faults: faults_for_all_chunks(n, &[0, 17, 4096, -1]) });
+            }
+        }
+        for nch in [3i64, 5] {
+            if let Some(p) = adversarial_program(&k, 1, nch, ctx.seed ^ 0xAD ^ nch as u64) {
+                let n = est_chunks(&p);
+                v.push(Case { prog: p, faults: faults_for_all_chunks(n, &[0, 17, -1]) });
             }
         }
         // interleaved, unaligned
@@ -242,7 +270,11 @@ pub fn run_case(ctx: &mut Ctx, c: &Case) {
         ctx.count(&format!("fault:{kclass}:{kind}:layers{}", p.layers));
         ctx.count(&format!("musthit:{kclass}"));
         // is the data right after the failed chunk parseable by construction?
-        let header_at_next = d.comp.is_none() && d.walk.blocks.iter().any(|b| b.off as u64 == (ci as u64 + 1) * k.chunk);
+        let tiled = p.files.iter().any(|f| matches!(f.data, DataKind::Tiles(_)));
+        if tiled {
+            ctx.count("musthit:adversarial_content_parses_as_blocks");
+        }
+        let header_at_next = tiled || (d.comp.is_none() && d.walk.blocks.iter().any(|b| b.off as u64 == (ci as u64 + 1) * k.chunk));
         if header_at_next {
             ctx.count("post_failure_bytes_parseable_by_construction");
             if kclass == "kmid" {
